@@ -147,7 +147,13 @@ pub fn monitor_run(
 
 thread_local! {
     static DBS: RefCell<HashMap<(Config, bool), (RootDatabase, usize)>> = RefCell::new(HashMap::new());
+    /// Use order of the keys of `DBS`, most recent last.
+    static DB_ORDER: RefCell<Vec<(Config, bool)>> = const { RefCell::new(Vec::new()) };
 }
+
+/// Databases kept alive per thread: each holds a fully analysed corelib (hundreds of MB), and there
+/// are 16 threads and up to 14 configurations x 2 plugin sets.
+const MAX_DBS_PER_THREAD: usize = 4;
 
 /// Compiles a snippet on a per-thread cached database of the configuration.
 pub fn compile_cached(cfg: &Config, starknet: bool, name: &str, code: &str) -> Result<Program, String> {
@@ -158,6 +164,15 @@ pub fn compile_cached(cfg: &Config, starknet: bool, name: &str, code: &str) -> R
         if stale {
             dbs.remove(&key);
         }
+        DB_ORDER.with(|o| {
+            let mut o = o.borrow_mut();
+            o.retain(|k| *k != key);
+            o.push(key);
+            while o.len() > MAX_DBS_PER_THREAD {
+                let old = o.remove(0);
+                dbs.remove(&old);
+            }
+        });
         let entry = dbs.entry(key).or_insert_with(|| {
             (comp::build_db(cfg, if starknet { Plugins::Starknet } else { Plugins::Default }), 0)
         });
@@ -352,11 +367,10 @@ pub fn exec_worker(ctx: &mut Ctx, prop: &str) {
     };
     let inputs_per_fn = tier.pick(8, 40);
     ctx.count("snippet_cases", cases.len() as u64);
-    let work: Vec<(usize, &(String, String), &Config)> = cases
-        .iter()
-        .enumerate()
-        .flat_map(|(i, c)| cfgs.iter().map(move |cfg| (i, c, cfg)))
-        .collect();
+    // Configuration-major order: a thread's contiguous share of the work then stays within one
+    // or two configurations, i.e. one or two live databases.
+    let work: Vec<(usize, &(String, String), &Config)> =
+        cfgs.iter().flat_map(|cfg| cases.iter().enumerate().map(move |(i, c)| (i, c, cfg))).collect();
     let results: Vec<(ShardResult, HashSet<String>)> = work
         .par_iter()
         .map(|(i, (name, code), cfg)| {
